@@ -135,41 +135,41 @@ func persist(name string) {
 	zz.CheckFrozen("result")
 }
 
-func VH_c04_seq_seq_Sort() { persist("seq.Sort") }
-func VH_c04_seq_iterator_Sort() { persist("iterator.Sort") }
-func VH_c04_seq_list_Sort() { persist("list.Sort") }
-func VH_c04_seq_Seq_Reverse() { persist("Seq.Reverse") }
-func VH_c04_seq_seq_Distinct() { persist("seq.Distinct") }
-func VH_c04_seq_Seq_Add() { persist("Seq.Add") }
-func VH_c04_seq_Seq_Append() { persist("Seq.Append") }
-func VH_c04_seq_Seq_Append0() { persist("Seq.Append0") }
-func VH_c04_seq_Seq_Concat() { persist("Seq.Concat") }
-func VH_c04_seq_Seq_ConcatNil() { persist("Seq.ConcatNil") }
-func VH_c04_seq_Seq_ConcatSelf() { persist("Seq.ConcatSelf") }
-func VH_c04_seq_seq_Concat() { persist("seq.Concat") }
-func VH_c04_seq_Seq_Map() { persist("Seq.Map") }
-func VH_c04_seq_seq_Map() { persist("seq.Map") }
-func VH_c04_seq_Seq_Filter() { persist("Seq.Filter") }
-func VH_c04_seq_Seq_FilterNot() { persist("Seq.FilterNot") }
-func VH_c04_seq_Seq_FlatMap() { persist("Seq.FlatMap") }
-func VH_c04_seq_Seq_Take() { persist("Seq.Take") }
-func VH_c04_seq_Seq_Drop() { persist("Seq.Drop") }
-func VH_c04_seq_Seq_Tail() { persist("Seq.Tail") }
-func VH_c04_seq_Seq_Init() { persist("Seq.Init") }
-func VH_c04_seq_seq_Scan() { persist("seq.Scan") }
-func VH_c04_seq_seq_Span() { persist("seq.Span") }
-func VH_c04_seq_seq_SpanR() { persist("seq.SpanR") }
-func VH_c04_seq_seq_Partition() { persist("seq.Partition") }
-func VH_c04_seq_seq_Fold() { persist("seq.Fold") }
-func VH_c04_seq_seq_GroupBy() { persist("seq.GroupBy") }
-func VH_c04_seq_seq_MinMax() { persist("seq.MinMax") }
-func VH_c04_seq_seq_ToSet_ToMap() { persist("seq.ToSet_ToMap") }
-func VH_c04_seq_seq_Zip() { persist("seq.Zip") }
-func VH_c04_seq_iterator_ToSeq() { persist("iterator.ToSeq") }
+func VH_c04_seq_seq_Sort()         { persist("seq.Sort") }
+func VH_c04_seq_iterator_Sort()    { persist("iterator.Sort") }
+func VH_c04_seq_list_Sort()        { persist("list.Sort") }
+func VH_c04_seq_Seq_Reverse()      { persist("Seq.Reverse") }
+func VH_c04_seq_seq_Distinct()     { persist("seq.Distinct") }
+func VH_c04_seq_Seq_Add()          { persist("Seq.Add") }
+func VH_c04_seq_Seq_Append()       { persist("Seq.Append") }
+func VH_c04_seq_Seq_Append0()      { persist("Seq.Append0") }
+func VH_c04_seq_Seq_Concat()       { persist("Seq.Concat") }
+func VH_c04_seq_Seq_ConcatNil()    { persist("Seq.ConcatNil") }
+func VH_c04_seq_Seq_ConcatSelf()   { persist("Seq.ConcatSelf") }
+func VH_c04_seq_seq_Concat()       { persist("seq.Concat") }
+func VH_c04_seq_Seq_Map()          { persist("Seq.Map") }
+func VH_c04_seq_seq_Map()          { persist("seq.Map") }
+func VH_c04_seq_Seq_Filter()       { persist("Seq.Filter") }
+func VH_c04_seq_Seq_FilterNot()    { persist("Seq.FilterNot") }
+func VH_c04_seq_Seq_FlatMap()      { persist("Seq.FlatMap") }
+func VH_c04_seq_Seq_Take()         { persist("Seq.Take") }
+func VH_c04_seq_Seq_Drop()         { persist("Seq.Drop") }
+func VH_c04_seq_Seq_Tail()         { persist("Seq.Tail") }
+func VH_c04_seq_Seq_Init()         { persist("Seq.Init") }
+func VH_c04_seq_seq_Scan()         { persist("seq.Scan") }
+func VH_c04_seq_seq_Span()         { persist("seq.Span") }
+func VH_c04_seq_seq_SpanR()        { persist("seq.SpanR") }
+func VH_c04_seq_seq_Partition()    { persist("seq.Partition") }
+func VH_c04_seq_seq_Fold()         { persist("seq.Fold") }
+func VH_c04_seq_seq_GroupBy()      { persist("seq.GroupBy") }
+func VH_c04_seq_seq_MinMax()       { persist("seq.MinMax") }
+func VH_c04_seq_seq_ToSet_ToMap()  { persist("seq.ToSet_ToMap") }
+func VH_c04_seq_seq_Zip()          { persist("seq.Zip") }
+func VH_c04_seq_iterator_ToSeq()   { persist("iterator.ToSeq") }
 func VH_c04_seq_iterator_Reverse() { persist("iterator.Reverse") }
-func VH_c04_seq_list_ToSeq() { persist("list.ToSeq") }
-func VH_c04_seq_list_Tail_ToSeq() { persist("list.Tail.ToSeq") }
-func VH_c04_seq_list_ReverseSeq() { persist("list.ReverseSeq") }
+func VH_c04_seq_list_ToSeq()       { persist("list.ToSeq") }
+func VH_c04_seq_list_Tail_ToSeq()  { persist("list.Tail.ToSeq") }
+func VH_c04_seq_list_ReverseSeq()  { persist("list.ReverseSeq") }
 func VH_c04_seq_iterator_GroupBy() { persist("iterator.GroupBy") }
-func VH_c04_seq_seq_Collect() { persist("seq.Collect") }
-func VH_c04_seq_seq_Of() { persist("seq.Of") }
+func VH_c04_seq_seq_Collect()      { persist("seq.Collect") }
+func VH_c04_seq_seq_Of()           { persist("seq.Of") }
